@@ -232,14 +232,20 @@ def real_loop(ds, desc, ignore, method, path):
     var_dims = {v["name"]: [d for d in v["dims"] if d in internal] for v in desc["vars"]}
     var_coords = {d["name"]: d["labels"] for d in desc["dims"] if d["internal"] and d["labels"] is not None}
     fn = HarvestFn([(n, tuple(sizes[d] for d in var_dims[n])) for n in var_names])
-    runner = xyzpy.Runner(fn, var_names=var_names, fn_args=params, var_dims=var_dims, var_coords=var_coords)
+    # the runner's own argument order differs from the dataset's dimension order (the reported fn_args decide)
+    runner = xyzpy.Runner(fn, var_names=var_names, fn_args=list(reversed(params)), var_dims=var_dims,
+                          var_coords=var_coords)
     h = xyzpy.Harvester(runner, data_name=path, engine="h5netcdf")
     try:
         ds0 = h.full_ds.load()
         fa0, miss0 = find_missing_cases(ds0, set(ignore), method)
         if miss0:
-            cases = [dict(zip(fa0, c)) for c in miss0]
-            h.harvest_cases(cases, verbosity=0, overwrite=True if method == "isfinite" else None)
+            ow = True if method == "isfinite" else None
+            if len(miss0) % 2 == 0:
+                # exactly as reported: tuples of values together with the reported argument order
+                h.harvest_cases([tuple(c) for c in miss0], fn_args=tuple(fa0), verbosity=0, overwrite=ow)
+            else:
+                h.harvest_cases([dict(zip(fa0, c)) for c in miss0], verbosity=0, overwrite=ow)
         ds1 = h.full_ds.load()
         fa1, miss1 = find_missing_cases(ds1, set(ignore), method)
         py = lambda cs: [[x.item() if hasattr(x, "item") else x for x in c] for c in cs]   # noqa
